@@ -30,7 +30,7 @@ pub struct Scn {
 
 pub fn gen(rng: &mut Rng) -> Scn {
     let n = rng.range(10, 100) as u32;
-    let (min_ms, max_ms) = *rng.pick(&[(0u64, 0u64), (0, 5), (1, 3), (5, 5), (3, 1), (10, 20), (0, 50), (999, 1001), (1500, 1500), (1200, 2500)]);
+    let (min_ms, max_ms) = *rng.pick(&[(0u64, 0u64), (0, 5), (1, 3), (5, 5), (3, 1), (10, 20), (0, 50), (999, 1001), (1500, 1500), (1200, 2500), (1001, 1001), (1003, 1003), (1023, 1023), (1118, 1118), (1235, 1235), (1469, 1469)]);
     let seed = match rng.below(8) {
         0 => 0,
         1 => *rng.pick(&[1u64, u64::MAX, u64::MAX - 1, 1 << 63, (1 << 32) - 1, 1 << 32]),
